@@ -32,7 +32,7 @@ Free == [kind |-> "free", data |-> <<>>, perm |-> 0]
 Unbound == [path |-> <<>>, bound |-> FALSE, open |-> FALSE, ino |-> 0, mode |-> 0, at |-> 0]
 
 \* ---- name validation, from the property text of C16 (separators, "", ".", ".." rules)
-Sep(s) == s \in {"a/b", "/", "/etc", "a\\b", "../x"}
+Sep(s) == s \in {"a/b", "/", "/etc", "a\\b", "../x", "/../export-evil/x", "../export-evil/keep"}
 Ordinary(s) == ~Sep(s) /\ s \notin {"", ".", ".."}
 Lead(ns) == Cardinality({i \in 1..Len(ns) : \A j \in 1..i : ns[j] = ".."})
 ValidWalk(ns) == /\ \A i \in 1..Len(ns) : ~Sep(ns[i]) /\ ns[i] \notin {"", "."}
@@ -182,7 +182,8 @@ RootStays == tree[<<>>] = 1 /\ ino[1].kind = "dir"
 TreeClosed == \A p \in Paths : (p # <<>> /\ tree[p] # 0) => KindAt(Parent(p)) = "dir"
 OneLink == \A p, q \in Paths : (tree[p] # 0 /\ tree[p] = tree[q]) => p = q
 NoLeak == \A i \in Inos : ino[i].kind # "free" => Referenced(i, tree, fid)
-HostileFull == {"", ".", "..", "a/b", "/", "/etc", "a\\b", "../x"}
+HostileFull == {"", ".", "..", "a/b", "/", "/etc", "a\\b", "../x", "/../export-evil/x", "../export-evil/keep"}
+\* (the sandbox has a sibling directory whose name starts with the export's name: "export-evil")
 HostileSmall == {".."}
 HostileNone == {}
 =============================================================================
